@@ -2,7 +2,7 @@
 from checks import actors_common as ac
 
 THEOREMS = ['Poupool.C02.filtration_dosing_interlock', 'Poupool.C02.disinfection_runs_pwm_only_when_running', 'Poupool.C01.glue_disinfection', 'Poupool.C01.glue_pwm', 'Poupool.C01.pwm_on_only_while_armed']
-COMPOSE = ['Poupool.ComposeProps.filtDis_discipline', 'Poupool.ComposeProps.filtDis_halted_when_served', 'Poupool.ComposeProps.filtration_no_treatment', 'Poupool.ComposeProps.filtDis_composed_no_treatment', 'Poupool.ComposeProps.disPwm_discipline', 'Poupool.ComposeProps.disPwm_off_when_served', 'Poupool.ComposeProps.disPwm_composed_halt', 'Poupool.ComposeProps.disPwmCl_discipline', 'Poupool.ComposeProps.disPwmCl_composed_halt']
+COMPOSE = ['Poupool.ComposeProps.only_master_starts', 'Poupool.ComposeProps.filtDis_discipline', 'Poupool.ComposeProps.filtDis_halted_when_served', 'Poupool.ComposeProps.filtration_no_treatment', 'Poupool.ComposeProps.filtDis_composed_no_treatment', 'Poupool.ComposeProps.disPwm_discipline', 'Poupool.ComposeProps.disPwm_off_when_served', 'Poupool.ComposeProps.disPwm_composed_halt', 'Poupool.ComposeProps.disPwmCl_discipline', 'Poupool.ComposeProps.disPwmCl_composed_halt']
 MODULE = "Poupool.Properties.C02"
 
 
